@@ -119,12 +119,22 @@ func (c *Channel) withdrawSubChannel(ctx context.Context, sub *Channel) error {
 	return errors.WithMessage(err, "update parent channel")
 }
 
-func (c *Channel) registerSubChannelFunding(id channel.ID, alloc []channel.Bal) {
+func (c *Channel) registerSubChannelFunding(id channel.ID, initBals channel.Balances) {
+	// The funding update must add exactly the sub-channel's sub-allocation and
+	// debit every participant by exactly its balance in the sub-channel; all
+	// other locked funds stay as they are.
 	filter := func(cu ChannelUpdate) bool {
-		expected := *channel.NewSubAlloc(id, alloc, nil)
-		_, containedBefore := c.machine.State().SubAlloc(expected.ID)
-		subAlloc, containedAfter := cu.State.SubAlloc(expected.ID)
-		return !containedBefore && containedAfter && expected.Equal(&subAlloc) == nil
+		cur := c.machine.State()
+		if _, containedBefore := cur.SubAlloc(id); containedBefore {
+			return false
+		}
+		if cur.AssertGreaterOrEqual(initBals) != nil {
+			return false
+		}
+		expectedLocked := append(append([]channel.SubAlloc{}, cur.Locked...),
+			*channel.NewSubAlloc(id, initBals.Sum(), nil))
+		return cur.Balances.Sub(initBals).Equal(cu.State.Balances) &&
+			channel.SubAllocsEqual(expectedLocked, cu.State.Locked)
 	}
 	ui := newUpdateInterceptor(filter)
 	c.subChannelFundings.Register(id, ui)
